@@ -2,25 +2,23 @@ use crate::driver::Meta;
 use crate::proto::Ctx;
 
 pub mod boolops;
-pub mod c02;
 
-pub fn meta(prop: &str) -> Option<Meta> {
-    match prop {
-        "C02" => Some(c02::meta()),
-        _ => None,
-    }
+macro_rules! registry {
+    ($($id:literal => $m:ident),* $(,)?) => {
+        $(pub mod $m;)*
+        pub fn meta(prop: &str) -> Option<Meta> {
+            match prop { $($id => Some($m::meta()),)* _ => None }
+        }
+        pub fn shards(prop: &str, tier: &str) -> Vec<String> {
+            match prop { $($id => $m::shards(tier),)* _ => vec![] }
+        }
+        pub fn run_shard(ctx: &mut Ctx) {
+            match ctx.prop.clone().as_str() { $($id => $m::run(ctx),)* p => panic!("unknown property {p}") }
+        }
+    };
 }
 
-pub fn shards(prop: &str, tier: &str) -> Vec<String> {
-    match prop {
-        "C02" => c02::shards(tier),
-        _ => vec![],
-    }
-}
-
-pub fn run_shard(ctx: &mut Ctx) {
-    match ctx.prop.clone().as_str() {
-        "C02" => c02::run(ctx),
-        p => panic!("unknown property {p}"),
-    }
+// one line per property check: "CNN" => cnn
+registry! {
+    "C02" => c02,
 }
